@@ -315,6 +315,8 @@ class Interp:
             return self.call_closure(callee.func, [callee.self_obj] + list(args), kwargs)
         if isinstance(callee, Builtin):
             return callee.fn(self, list(args), kwargs)
+        if isinstance(callee, Obj):  # instance with __call__
+            return self.call(self.getattr(callee, "__call__"), args, kwargs, node)
         if isinstance(callee, Partial):
             kw = dict(callee.kwargs)
             kw.update(kwargs)
@@ -501,6 +503,8 @@ class Interp:
                 return r
         if name == "aset":
             return Builtin("aset", lambda it, a, k, _o=obj: tree_aset(it, _o, *a, **k))
+        if name == "at" and obj.cls is not None and obj.cls.is_subclass_of("TreeClass"):
+            return TreeAt(obj)  # pytreeclass functional attribute update: obj.at["field"].set(value)
         if name == "__class__":
             return ClassRef(obj.cls) if obj.cls else Unknown("class")
         if obj.cls is not None:
@@ -1256,6 +1260,23 @@ def _is_generator(node) -> bool:
             stack.extend(ast.iter_child_nodes(x))
         _GEN_CACHE[k] = found
     return _GEN_CACHE[k]
+
+
+class TreeAt(AbsVal):
+    """obj.at[name].set(value) on a tree class: a copy of obj with that attribute replaced."""
+
+    def __init__(self, obj, key=None):
+        self.obj, self.key = obj, key
+
+    def av_getitem(self, key):
+        if not isinstance(key, str):
+            raise AnalysisError(f"tree .at[{key!r}]: only attribute names are modelled")
+        return TreeAt(self.obj, key)
+
+    def av_getattr(self, name):
+        if self.key is None or name != "set":
+            raise AnalysisError(f"tree .at[...].{name}")
+        return Builtin("at.set", lambda it, a, k: self.obj.replace(**{self.key: a[0]}))
 
 
 class SuperProxy(AbsVal):
